@@ -2393,9 +2393,11 @@ class Parameters:
                 obj.param._update_deps(attribute)
 
         p = '.'.join(dynamic_dep.spec.split(':')[0].split('.')[depth+1:])
-        if p == 'param':
-            # (the sub-object itself may not be attached yet)
-            subparams = [] if subobjs[-1] is None else [sp for sp in list(subobjs[-1].param)]
+        if p == 'param' or p.endswith('.param'):
+            # all the parameters of the last object of the path (which may
+            # not be attached yet), reached from the watched sub-object
+            prefix = p[:-len('param')]
+            subparams = [] if subobjs[-1] is None else [prefix + sp for sp in list(subobjs[-1].param)]
         else:
             subparams = [p]
 
